@@ -26,8 +26,12 @@ PLAN = dict(
          "class=heap-footprint-grows here and as class=heap-invariant by C09",
     explanation="theorems (operation traces of the abstract allocator from its initial state): the frontier moves only when both free lists are "
                 "exhausted (acquire_frontier); footprint_bound: frontier blocks <= peak blocks in use + 1; footprint_exact: equality once the peak "
-                "has been attained; loop_space_constant: traces with equal peaks end with equal frontiers. The lifting from traces to programs is "
-                "checked by execution, not proved",
+                "has been attained; loop_space_constant: traces with equal peaks end with equal frontiers. PROGRAMS: by C09_program_heap_safe the "
+                "operation trace of every run of a lin_check'd program on the heap-instrumented linear machine satisfies the preconditions, so the "
+                "same statements hold for programs (C10_program_footprint_bound/_exact/_loop_space_constant), plus the steady-state form "
+                "C10_program_frontier_stable (from a reachable configuration with the frontier at peak+1 blocks, any number of further iterations "
+                "within the peak do not move it) and a computable peak (C10_peak_computable); example: a loop with 3 and 30 iterations, same frontier "
+                "through the theorems. That the real code performs the listed operations is checked in lockstep (C09 step heaplock-x86)",
     assumptions=["as C09"],
     trusted=["coq/Sem/HeapCheck.v", "coq/Sem/X86Sem.v", "coq/Sem/A64Sem.v", "coq/Sem/RVSem.v", "coq/Sem/AxSem.v + Sem/AxTrace.v",
              "coq/Sem/HeapLock.v, Sem/X86Heap.v, Sem/A64Heap.v, Sem/RVHeap.v", "coq/Model/RunHeapOps.v, harness/src/cmd_heapops.rs"],
